@@ -120,6 +120,38 @@ func c10Build(kind string, seed int64) (*c10Image, error) {
 			return nil, err
 		}
 		img.fs = fs2
+	case "ext4-long":
+		// one file of 130 MiB written front to back on a 256 MiB volume with 1 KiB blocks: block groups
+		// 10..24 hold no backup superblock, so the file's extents there have the greatest length an
+		// initialised extent can have (32768 blocks)
+		st := monstore.NewMem(256 << 20)
+		fs, err := ext4.Create(file.New(st, false), 256<<20, 0, 512, &ext4.Params{})
+		if err != nil {
+			return nil, err
+		}
+		img.unit = 1024
+		t := Tree{TNode{Path: "LONG.DAT", Size: 130<<20 + 333, Seed: r.Uint64(), Kind: "prf"}}
+		// written in 4 MiB pieces (a single call asking for more than 65535 blocks is refused by the library)
+		lf, err := fs.OpenFile("LONG.DAT", os.O_CREATE|os.O_RDWR)
+		if err != nil {
+			return nil, err
+		}
+		content := t[0].Content()
+		for off := 0; off < len(content); off += 4 << 20 {
+			if _, err := lf.Write(content[off:min(off+4<<20, len(content))]); err != nil {
+				lf.Close()
+				return nil, fmt.Errorf("write LONG.DAT at %d: %w", off, err)
+			}
+		}
+		if err := lf.Close(); err != nil {
+			return nil, err
+		}
+		reg(t)
+		fs2, err := ext4.Read(file.New(st, true), 256<<20, 0, 512)
+		if err != nil {
+			return nil, err
+		}
+		img.fs = fs2
 	case "iso", "iso-rr", "iso-joliet":
 		st := monstore.NewMem(32 << 20)
 		img.unit = 2048
@@ -508,6 +540,7 @@ func init() {
 					}
 				}
 			}
+			cs = append(cs, core.MkCase("ext4-long-open", "handle-ext4-long", seed*131+977, c10Case{FS: "ext4-long", Seqs: seqs, Calls: calls, Route: "open"}))
 			return cs
 		},
 		Run: func(c core.Case, env *core.Env) core.Result {
